@@ -112,7 +112,7 @@ func (f *localFileEntryFactory) Create(name string, state FileState) (FileEntry,
 	if name != filepath.Clean(name) {
 		return nil, ErrInvalidName
 	}
-	if strings.HasPrefix(name, "/") || strings.HasSuffix(name, "/") || strings.HasPrefix(name, "../") {
+	if strings.HasPrefix(name, "/") || strings.HasSuffix(name, "/") || name == ".." || strings.HasPrefix(name, "../") {
 		return nil, ErrInvalidName
 	}
 	return newLocalFileEntry(state, name, f.GetRelativePath(name)), nil
